@@ -1150,7 +1150,16 @@ pub fn gen_prog(r: &mut Rng, root: &J, o: &GenOpts) -> Prog {
 }
 
 /// Hostile but grammatical shapes the property lists explicitly.
-fn add_adversarial(r: &mut Rng, p: &mut Prog, _root: &J) {
+fn add_adversarial(r: &mut Rng, p: &mut Prog, root: &J) {
+    // top-level keys of the document that hold a list / a string (extreme indices and
+    // conversions are only reached on values of the right type)
+    let keys_of = |want_list: bool| -> Vec<String> {
+        match root {
+            J::Map(kv) => kv.iter().filter(|(k, v)| is_ident(k) && if want_list { matches!(v, J::List(_)) } else { matches!(v, J::Str(_)) }).map(|(k, _)| k.clone()).collect(),
+            _ => vec![],
+        }
+    };
+    let (list_keys, str_keys) = (keys_of(true), keys_of(false));
     let n = 1 + r.usize(3);
     for _ in 0..n {
         let k = r.below(20);
@@ -1169,10 +1178,15 @@ fn add_adversarial(r: &mut Rng, p: &mut Prog, _root: &J) {
             1 => {
                 // type-mismatched function arguments
                 let f = *r.pick(&["parse_int", "parse_float", "parse_boolean", "parse_char", "parse_epoch", "json_parse", "url_decode", "to_upper", "count"]);
-                let arg = match r.below(4) {
+                let arg = match r.below(7) {
                     0 => Arg::Lit(J::List(vec![J::Int(1), J::Null])),
                     1 => Arg::Lit(J::Map(vec![("a".into(), J::Int(1))])),
                     2 => Arg::Lit(J::Str("not a number é".into())),
+                    // the empty string, a single multi-byte character
+                    3 => Arg::Lit(J::Str(String::new())),
+                    4 => Arg::Lit(J::Str("é".into())),
+                    // a string of the document
+                    5 if !str_keys.is_empty() => Arg::Query(q(vec![Part::Key(str_keys[r.usize(str_keys.len())].clone())])),
                     _ => Arg::Query(q(vec![Part::Key("a".into())])),
                 };
                 lets.push(Let { name: "fx".into(), val: Arg::Func(Box::new(Func { name: f.into(), args: vec![arg] })) });
@@ -1190,7 +1204,11 @@ fn add_adversarial(r: &mut Rng, p: &mut Prog, _root: &J) {
                 // extreme indices
                 // (also the first few positions: one of them is the length of a short list)
                 let idx = *r.pick(&[i32::MIN, i32::MAX, -1, -2, 1000000, 0, 1, 2, 3, 4, -3]);
-                let key = (*r.pick(doc::KEYS)).to_string();
+                let mut key = (*r.pick(doc::KEYS)).to_string();
+                if !list_keys.is_empty() && r.chance(2, 3) {
+                    // a key that really holds a list
+                    key = list_keys[r.usize(list_keys.len())].clone();
+                }
                 if r.chance(1, 3) {
                     // ... on the values of an interpolated variable: `<map>.%ks[n]`
                     let k2 = (*r.pick(doc::KEYS)).to_string();
@@ -1281,7 +1299,7 @@ fn add_adversarial(r: &mut Rng, p: &mut Prog, _root: &J) {
             19 => {
                 // every function with a FIRST argument that selects nothing: an EMPTY list (a
                 // filter no element passes), which is not the same as an unresolved value
-                let container = match _root {
+                let container = match root {
                     J::Map(kv) => kv.iter().find_map(|(k, v)| match v {
                         J::Map(m) if !m.is_empty() && m.iter().all(|(_, x)| matches!(x, J::Map(_))) => Some((k.clone(), true)),
                         J::List(l) if !l.is_empty() && l.iter().all(|x| matches!(x, J::Map(_))) => Some((k.clone(), false)),
@@ -1326,7 +1344,7 @@ fn add_adversarial(r: &mut Rng, p: &mut Prog, _root: &J) {
                 // blank / degenerate custom messages on clauses that fail
                 let m = (*r.pick(&[" ; ", "", " ", ";", ";;", " \t ", "\n"])).to_string();
                 let key = (*r.pick(doc::KEYS)).to_string();
-                if matches!(doc::at(_root, &[Seg::Key("Resources".into())]), Some(J::Map(_))) {
+                if matches!(doc::at(root, &[Seg::Key("Resources".into())]), Some(J::Map(_))) {
                     // on a template the failing clause is shown by the resource-aware console reporter
                     lines.push(Line { alts: vec![Clause::Cmp(Cmp { not: false, q: q(vec![Part::Key("Resources".into()), Part::Star, Part::Key("Type".into())]), op: Op::Eq, opnot: false, rhs: Some(Rhs::Lit(J::Str("zz never".into()))), msg: Some(m.clone()) })] });
                     lines.push(Line { alts: vec![Clause::Cmp(Cmp { not: false, q: q(vec![Part::Key("Resources".into()), Part::Star, Part::Key("Properties".into()), Part::Key("ZzNo".into())]), op: Op::Exists, opnot: false, rhs: None, msg: Some(m.clone()) })] });
